@@ -5,7 +5,9 @@ package main
 // copies of an ETX are independent of the original (Prime repricing mutates copies).
 
 import (
+	"bytes"
 	"fmt"
+	"github.com/dominant-strategies/go-quai/trie"
 	"math/big"
 	"strings"
 
@@ -38,6 +40,10 @@ func runEtxQ(seed uint64, n int, outDir string, replay string) {
 					o.Pad("panic %v", p)
 				}
 			}()
+			if rc.Chance(15) || c == 2 {
+				etxCommitment(o, rc, loc, c == 2)
+				return
+			}
 			db := state.NewDatabase(rawdb.NewMemoryDatabase(log.Global))
 			edb := state.NewDatabase(rawdb.NewMemoryDatabase(log.Global))
 			sdb, err := state.New(common.Hash{}, common.Hash{}, new(big.Int), db, edb, nil, loc, log.Global)
@@ -169,4 +175,75 @@ func runEtxQ(seed uint64, n int, outDir string, replay string) {
 		o.EndCase(fmt.Sprint(rc.U64()), true)
 	}
 	o.Close(nil)
+}
+
+// etxCommitment: the hash a block (outbound ETX hash) or a roll-up (ETX roll-up hash) commits to covers every entry of
+// the list: it is the root of the trie {rlp(i) -> entry i} (T3, reference built with the plain trie in index order), and
+// changing, dropping or swapping any single entry - in particular around positions 127 / 128 and 255 / 256, where the
+// key encoding changes length - changes it.  A commitment that ignores an entry lets a relayed set deliver an ETX its
+// origin never emitted, or lose one.
+func etxCommitment(o *h.Out, rc *h.Rng, loc common.Location, boundary bool) {
+	n := 1 + rc.Intn(40)
+	switch x := rc.Intn(6); {
+	case boundary || x == 0:
+		n = 126 + rc.Intn(6)
+	case x == 1:
+		n = 254 + rc.Intn(6)
+	case x == 2:
+		n = 100 + rc.Intn(200)
+	}
+	mk := func(i int) *types.Transaction {
+		to := cAddr(rc, loc)
+		return types.NewTx(&types.ExternalTx{OriginatingTxHash: cHash(rc), ETXIndex: uint16(i), Gas: 21000 + uint64(rc.Intn(1000)), To: &to,
+			Value: cBig(rc), Data: rc.Bytes(rc.Intn(20)), AccessList: cAccessList(rc, loc), Sender: cAddr(rc, loc), EtxType: uint64(rc.Intn(6))})
+	}
+	list := make(types.Transactions, n)
+	for i := range list {
+		list[i] = mk(i)
+	}
+	enc := make([]string, n)
+	for i := range list {
+		var buf bytes.Buffer
+		list.EncodeIndex(i, &buf)
+		enc[i] = h.Hex(buf.Bytes())
+	}
+	o.Op("commit %s", strings.Join(enc, " "))
+	o.Count(fmt.Sprintf("commitment:n/64=%d", n/64))
+	root := types.DeriveSha(list, trie.NewStackTrie(nil))
+	o.Ans("impl", "%s", h.Hex(root[:]))
+	ref := func(l types.Transactions) common.Hash {
+		t, _ := trie.New(common.Hash{}, trie.NewDatabase(rawdb.NewMemoryDatabase(log.Global)))
+		for i := range l {
+			var buf bytes.Buffer
+			l.EncodeIndex(i, &buf)
+			t.Update(rlpUint(uint64(i)), buf.Bytes())
+		}
+		return t.Hash()
+	}
+	if want := ref(list); want != root {
+		o.Violate("c04-etx-commitment-not-the-list-root", fmt.Sprintf("the commitment to %d ETXs is %x, the root of the trie holding every entry under its index is %x", n, root[:6], want[:6]))
+	}
+	// single-entry deviations: every position near a boundary, a few random ones
+	var positions []int
+	for _, b := range []int{0, 126, 127, 128, 129, 254, 255, 256, 257, n - 1} {
+		if b >= 0 && b < n {
+			positions = append(positions, b)
+		}
+	}
+	for k := 0; k < 4; k++ {
+		positions = append(positions, rc.Intn(n))
+	}
+	for _, i := range positions {
+		alt := append(types.Transactions{}, list...)
+		alt[i] = mk(i)
+		if types.DeriveSha(alt, trie.NewStackTrie(nil)) == root {
+			o.Violate("c04-etx-commitment-ignores-entry", fmt.Sprintf("replacing entry %d of %d ETXs by another ETX leaves the commitment %x unchanged", i, n, root[:6]))
+		}
+		if n > 1 {
+			drop := append(append(types.Transactions{}, list[:i]...), list[i+1:]...)
+			if types.DeriveSha(drop, trie.NewStackTrie(nil)) == root {
+				o.Violate("c04-etx-commitment-ignores-entry", fmt.Sprintf("dropping entry %d of %d ETXs leaves the commitment %x unchanged", i, n, root[:6]))
+			}
+		}
+	}
 }
